@@ -131,6 +131,39 @@ theorem independent (ops : List Op) (op : Op) (k j : Nat)
     exact obs_eq_of_frame hI (step_inv hG hI op hv) j hp hh hinfo hcomp
   · rfl
 
+/-- **T5.** `into_func` hands everything the handle owned to the closure: after
+    any history, turning live handle i into a closure releases nothing, changes
+    no reference count and no fault log, leaves every other handle as it was, and
+    the closure sits where the handle was, for the same version, owning the
+    `Arc`, returning what the handle returned.  (Fails to check when the generated
+    capture fact says the closure captures only the function pointer.) -/
+theorem into_func_keeps (ops : List Op) (i : Nat) (h : Handle)
+    (hi : (run facts ops).hs[i]? = some h) (hf : h.isFn = false) :
+    let s := run facts ops
+    let s' := stepV facts s (.intoFunc i)
+    s'.released = s.released ∧ s'.strong = s.strong ∧ s'.faults = s.faults ∧ s'.pkgs = s.pkgs
+      ∧ s'.hs = s.hs.set i { h with isFn := true }
+      ∧ s'.hs[i]? = some { h with isFn := true }
+      ∧ callHandle s' i = callHandle s i := by
+  intro s s'
+  have hi' : s.hs[i]? = some h := hi
+  have hv : valid s (.intoFunc i) = true := by
+    show (s.hs[i]?).any (fun h => !h.isFn) = true
+    rw [hi']; simp [hf]
+  have hcl : facts.closureKeepsArc = true := (good_of_goodB facts_good).closure
+  have hs' : s' = { s with hs := s.hs.set i { h with isFn := true } } := by
+    show stepV facts s (.intoFunc i) = _
+    simp only [stepV, hv, if_true, step, hcl]
+    rw [hi']
+  obtain ⟨hlt, _⟩ := List.getElem?_eq_some_iff.1 hi'
+  have hget : (s.hs.set i { h with isFn := true })[i]? = some { h with isFn := true } := by
+    rw [List.getElem?_set_self hlt]
+  refine ⟨by rw [hs'], by rw [hs'], by rw [hs'], by rw [hs'], by rw [hs'], by rw [hs']; exact hget, ?_⟩
+  rw [hs']
+  show ((s.hs.set i { h with isFn := true })[i]?).map _ = (s.hs[i]?).map _
+  rw [hget, hi']
+  rfl
+
 /-! ### non-vacuity -/
 
 /-- a hot-reload history: runtime with constant and closure, version 1 compiled
@@ -172,6 +205,10 @@ example : (run facts reloadFn).hs.map (·.isFn) = [true] ∧ callHandle (run fac
     ∧ (run facts (reloadFn ++ [.dropHandle 0])).relCount (.code 1) = 1
     ∧ (run facts (reloadFn ++ [.dropHandle 0])).relCount (.closure 0) = 1 := by
   decide
+
+/-- T5's hypotheses are met by a freshly obtained handle -/
+example : ∃ h, (run facts (reloadFn.take 5)).hs[0]? = some h ∧ h.isFn = false :=
+  ⟨{ k := 1, holds := true, expect := .ok 1240 }, rfl, rfl⟩
 
 /-- … and T1 has teeth there: a closure that captures only the function pointer lets the module go when
     `into_func` returns; the package drop then frees the code under the closure -/
